@@ -392,6 +392,10 @@ func runG7(r *Repo, rep *Report) {
 		wantOut, wantReg := spec(v)
 		gotReg := contains(hit.effects, "bind(requested,typs)") && contains(hit.effects, "enqueue(typs)")
 		anyEff := len(hit.effects) > 0
+		// where the bound name is the requested name (S), returning either of them is returning the same string
+		if v["H"] && v["S"] && hit.outcome == "existing" && wantOut == "requested" {
+			hit.outcome = "requested"
+		}
 		ok := hit.outcome == wantOut && gotReg == wantReg && (wantReg || !anyEff) && (!wantReg || len(hit.effects) == 2)
 		if ok {
 			rep.pass("G7")
